@@ -16,6 +16,7 @@ git commit --no-edit -q 2>/dev/null
 # fixes
 for sha in $(git -C /repo log --reverse --format=%h "main..scratch-$G"); do
   msg=$(git -C /repo log -1 --format=%s "$sha")
+  if git -C /repo log --format=%s 76a2470..main | grep -qxF "$msg"; then continue; fi   # already on main
   case "$msg" in
     fix:*) echo "cherry-pick $sha $msg"; git -C /repo cherry-pick "$sha" >/dev/null 2>&1 || { echo "  CHERRY-PICK CONFLICT $sha"; git -C /repo cherry-pick --abort; } ;;
     *) echo "skipping non-fix commit $sha $msg" ;;
